@@ -121,8 +121,41 @@ std::string histBlob(const void *p, size_t n)
 void probe(const char *name, uint64_t add) { g_probes[name] += add; }
 
 static std::vector<std::string> g_shmNames;
+void fdSnapshot(const std::string &label)
+{
+    // simulated descriptors
+    std::string simfds;
+    for (auto &kv : g_net.socks) {
+        SockEnt *s = kv.second;
+        char b[160];
+        const char *kind = s->kind == SockEnt::LISTEN ? "listen" : s->kind == SockEnt::UDP ? "udp" : s->kind == SockEnt::CONN ? "conn" : s->kind == SockEnt::PAIR_CHILD ? "pairchild" : "fresh";
+        snprintf(b, sizeof(b), "%d:%s:%c:%s:%d ", s->fd, kind, s->conn ? s->conn->kind : '-', s->conn ? s->conn->peerName.c_str() : (s->kind == SockEnt::LISTEN || s->kind == SockEnt::UDP ? std::to_string(s->local.port).c_str() : "-"), s->conn ? s->conn->id : 0);
+        simfds += b;
+    }
+    hist("FDSNAP\t%s\tsim\t%s", label.c_str(), simfds.substr(0, 900).c_str());
+    // every descriptor of the process: placeholders of simulated descriptors must be exactly the table above
+    std::string real; int nreal = 0, nplace = 0, orphans = 0;
+    DIR *d = __real_opendir("/proc/self/fd");
+    std::vector<int> fds;
+    if (d) { while (struct dirent *e = __real_readdir(d)) { if (e->d_name[0] != '.') fds.push_back(atoi(e->d_name)); } int dfd = dirfd(d); fds.erase(std::remove(fds.begin(), fds.end(), dfd), fds.end()); __real_closedir(d); }
+    std::sort(fds.begin(), fds.end());
+    for (int fd : fds) {
+        if (fd == g_histFd || fd == g_binFd) continue;
+        char link[64], path[512]; snprintf(link, sizeof(link), "/proc/self/fd/%d", fd);
+        ssize_t n = readlink(link, path, sizeof(path) - 1); if (n < 0) continue; path[n] = 0;
+        std::string p = path;
+        const bool isSim = g_net.sock(fd) || g_net.isEpoll(fd);
+        if (p == "/dev/null" && isSim) { ++nplace; continue; }
+        if (p == "/dev/null" && fd > 2) { ++orphans; real += std::to_string(fd) + "=orphan-placeholder "; continue; }
+        if (p.compare(0, g_scn.rundir.size(), g_scn.rundir) == 0) p = p.substr(g_scn.rundir.size());
+        { std::string tag = g_scn.rundir; for (auto &c : tag) if (c == '/') c = '_'; size_t i = p.find("-" + tag); if (i != std::string::npos) p.erase(i); }
+        ++nreal; real += std::to_string(fd) + "=" + p + " ";
+    }
+    hist("FDSNAP\t%s\treal\t%d\t%d\t%d\t%s", label.c_str(), nreal, nplace, orphans, real.substr(0, 900).c_str());
+}
 void endRun(const char *reason, int code)
 {
+    if (g_active && !g_scn.snaps.empty()) fdSnapshot("end");
     for (auto &p : g_probes) hist("PROBE\t%s\t%llu", p.first.c_str(), (unsigned long long)p.second);
     hist("END\t%s", reason);
     histFlush();
